@@ -10,7 +10,7 @@ import c11_translate  # noqa: E402
 ID = "C11"
 THEOREMS = ["C11_payload_ops", "C11_element_ops", "C11_ops_complete", "C11_python_cmp_swap",
             "C11_fiber_add", "C11_fiber_mul", "C11_fiber_add_scalar", "C11_fiber_mul_scalar",
-            "C11_inplace_agree", "C11_fiber_history", "C11_active_range_not_read",
+            "C11_inplace_agree", "C11_fiber_history", "C11_active_range_not_read", "C11_fiber_chain_step", "C11_fiber_chain",
             "C11_fiber_imul_pinned_refuted", "C11_model_meets_spec"]
 COQ_IMPORTS = ("From FT Require Import Model.Base Model.Obs Model.C11PyOps Model.C11Fiber "
                "Gen.C11PayloadOps Gen.C11CoordPayloadOps Model.C11Check.")
@@ -221,6 +221,43 @@ def gen_hist_case(rng):
             "a": a, "b": b, "s": rng.choice([0, 1, 2, -1, 3, -3, 7])}
 
 
+STEP_KINDS = ["SAddF", "SMulF", "SAddS", "SMulS", "SIAddF", "SIMulF", "SIAddS", "SIMulS"]
+
+
+def gen_chain_case(rng):
+    """chains of 1-3 steps on an accumulator (results of + and * become operands of later scalar and
+    in-place forms), with and without declared shapes; fiber operands that reach past the accumulator"""
+    declared = rng.random() < 0.35
+    hi = rng.randint(1, 8)
+    a0 = gen_afib(rng, shape_hi=rng.choice([0, 2, hi]), p_active=0.3)
+    if declared:
+        a0["s"] = hi + rng.choice([0, 0, 2])
+        a0["es"] = [e for e in a0["es"] if e[0] < a0["s"]]
+    else:
+        a0["s"] = None
+    if a0["act"] is not None and not isinstance(a0["act"], list):
+        a0["act"] = None
+    steps = []
+    for i in range(rng.choice([1, 1, 2, 2, 3])):
+        k = rng.choice(STEP_KINDS + ["SAddF", "SAddF", "SIAddF", "SMulS"])
+        if i == 0 and rng.random() < 0.3:
+            k = rng.choice(["SAddF", "SMulS", "SMulF"])      # a value-returning result enters the chain
+        if k.endswith("F"):
+            c = gen_afib(rng, shape_hi=hi, p_active=0.3)
+            if a0["s"] is not None:
+                c["es"] = [e for e in c["es"] if e[0] < a0["s"]]
+            if rng.random() < 0.5:
+                c["s"] = None
+            if c["s"] is not None and c["es"] and c["s"] <= c["es"][-1][0]:
+                c["s"] = c["es"][-1][0] + 1
+            steps.append({"k": k, "c": c})
+        else:
+            steps.append({"k": k, "v": rng.choice([0, 1, 2, -1, 3])})
+    b = gen_afib(rng, p_active=0.3)
+    return {"t": "fibc", "a0": a0, "steps": steps, "mul": rng.random() < 0.3, "withfiber": rng.random() < 0.2,
+            "b": b, "s": rng.choice([1, 2, -1, 3, -3, 7, 0])}
+
+
 def streams(tier, rng):
     reps = 3 if tier == "quick" else 40
     ops = []
@@ -232,6 +269,8 @@ def streams(tier, rng):
     yield ("fibers-random", [gen_fib_case(rng) for _ in range(n)], False)
     n = 600 if tier == "quick" else 12000
     yield ("fibers-active-range-and-history", [gen_hist_case(rng) for _ in range(n)], False)
+    n = 700 if tier == "quick" else 14000
+    yield ("fibers-chains", [gen_chain_case(rng) for _ in range(n)], False)
     if tier == "thorough":
         # exhaustive small scope: coordinates 0..2, per coordinate absent / explicit 0 / 1 / -1 ... both operands
         cases = []
@@ -252,6 +291,8 @@ def nontrivial(c):
         return c["x"][1] != 0 or c["y"][1] != 0
     if c["t"] == "fibh":
         return bool(c["a"]["es"]) or bool(c["b"]["es"]) or bool(c["pre"] and c["pre"]["c"]["es"])
+    if c["t"] == "fibc":
+        return bool(c["a0"]["es"]) or any(st.get("c", {}).get("es") for st in c["steps"])
     return bool(c["a"]) or bool(c["b"])
 
 
@@ -259,6 +300,14 @@ def describe(c):
     if c["t"] == "op":
         return {"kind": "op", "op": ("i" if c["inplace"] else "") + c["op"], "operands": c["kl"] + "-" + c["kr"],
                 "float": c["x"][0] == "f" or c["y"][0] == "f"}
+    if c["t"] == "fibc":
+        def last0(es):
+            return es[-1][0] + 1 if es else 0
+        reach = max([last0(st["c"]["es"]) for st in c["steps"] if st["k"] in ("SAddF", "SIAddF")] + [0])
+        return {"kind": "fibc", "steps": "-".join(st["k"][1:] for st in c["steps"]),
+                "fop": ("mul" if c["mul"] else "add") + ("-fiber" if c["withfiber"] else "-scalar"),
+                "a0_shape_declared": c["a0"]["s"] is not None, "a0_empty": not c["a0"]["es"],
+                "operand_reaches_past_a0": reach > last0(c["a0"]["es"])}
     if c["t"] == "fibh":
         def last(es):
             return es[-1][0] + 1 if es else 0
@@ -298,6 +347,12 @@ def coq_zfib(a):
 def case_to_coq(c):
     if c["t"] == "op":
         return "(COp %s %s %s %s %s %s)" % (L.b(c["inplace"]), c["op"], c["kl"], c["kr"], coq_val(c["x"]), coq_val(c["y"]))
+    if c["t"] == "fibc":
+        def af(f):
+            act = "None" if f["act"] is None else "(Some (%s, %s))" % (L.z(f["act"][0]), L.z(f["act"][1]))
+            return "(Build_afib %s %s %s)" % (L.opt(f["s"], L.z), act, coq_zfib(f["es"]))
+        steps = L.lst("(%s %s)" % (st["k"], af(st["c"]) if "c" in st else L.z(st["v"])) for st in c["steps"])
+        return "(CFibC %s %s %s %s %s %s)" % (af(c["a0"]), steps, L.b(c["mul"]), L.b(c["withfiber"]), af(c["b"]), L.z(c["s"]))
     if c["t"] == "fibh":
         def af(f):
             act = "None" if f["act"] is None else "(Some (%s, %s))" % (L.z(f["act"][0]), L.z(f["act"][1]))
@@ -385,10 +440,9 @@ def run_fib(c):
     import ftutil as U
 
     def mk(shape, es):
-        kw = {} if shape is None else {"shape": shape}
-        return Fiber([x for x, _ in es], [v for _, v in es], **kw)
+        return mk_afib({"s": shape, "act": None, "es": es})
     a, b = mk(c["sa"], c["a"]), mk(c["sb"], c["b"])
-    x = b if c["withfiber"] else c["s"]
+    x = b if c["withfiber"] else U.dress(c["s"])
     r1 = (a * x) if c["mul"] else (a + x)
     r2 = None
     if not c["withfiber"]:
@@ -404,16 +458,8 @@ def run_fib(c):
 
 
 def run_fibh(c):
-    from fibertree import Fiber
     import ftutil as U
-
-    def mk(f):
-        kw = {}
-        if f["s"] is not None:
-            kw["shape"] = f["s"]
-        if f["act"] is not None:
-            kw["active_range"] = tuple(f["act"])
-        return Fiber([x for x, _ in f["es"]], [v for _, v in f["es"]], **kw)
+    mk = mk_afib
 
     def history():
         a = mk(c["a"])
@@ -428,7 +474,7 @@ def run_fibh(c):
     a1 = U.snap(a)
     act = a.getActive()
     b = mk(c["b"])
-    x = b if c["withfiber"] else c["s"]
+    x = b if c["withfiber"] else U.dress(c["s"])
     r1 = (a * x) if c["mul"] else (a + x)
     r2 = []
     if not c["withfiber"]:
@@ -444,9 +490,68 @@ def run_fibh(c):
             [U.snap(r1), r2, U.snap(a2_id), a2 is a2_id, a_after, U.snap(b)]]
 
 
+def mk_afib(f):
+    """fiber object from a case literal; values in the representation of the current mode (ftutil)"""
+    from fibertree import Fiber
+    import ftutil as U
+    kw = {}
+    if f["s"] is not None:
+        kw["shape"] = f["s"]
+    if f["act"] is not None:
+        kw["active_range"] = tuple(f["act"])
+    fib = Fiber([x for x, _ in f["es"]], [U.dress(v) for _, v in f["es"]], **kw)
+    if U.MODE.get("touch"):
+        U.touch(fib)
+    return fib
+
+
+def run_fibc(c):
+    import ftutil as U
+
+    def chain(trace=None):
+        acc = mk_afib(c["a0"])
+        for st in c["steps"]:
+            x = mk_afib(st["c"]) if "c" in st else U.dress(st["v"])
+            k = st["k"]
+            if k in ("SAddF", "SAddS"):
+                acc = acc + x
+            elif k in ("SMulF", "SMulS"):
+                acc = acc * x
+            elif k in ("SIAddF", "SIAddS"):
+                acc += x
+            else:
+                acc *= x
+            if U.MODE.get("touch"):
+                U.touch(acc)            # read-only queries between the steps (arms any memoisation)
+            if trace is not None:
+                trace.append(U.snap(acc))
+        return acc
+    trace = []
+    a = chain(trace)
+    act = a.getActive()
+    decl = a.getRankAttrs().getShape()
+    b = mk_afib(c["b"])
+    x = b if c["withfiber"] else U.dress(c["s"])
+    r1 = (a * x) if c["mul"] else (a + x)
+    r2 = []
+    if not c["withfiber"]:
+        r2 = [U.snap((x * a) if c["mul"] else (x + a))]
+    a_after = U.snap(a)
+    a2 = chain()
+    a2_id = a2
+    if c["mul"]:
+        a2 *= x
+    else:
+        a2 += x
+    return [trace, [int(act[0]), int(act[1])], [] if decl is None else [int(decl)],
+            [U.snap(r1), r2, U.snap(a2_id), a2 is a2_id, a_after, U.snap(b)]]
+
+
 def run_impl(c):
     if c["t"] == "op":
         return run_op(c)
+    if c["t"] == "fibc":
+        return run_fibc(c)
     return run_fibh(c) if c["t"] == "fibh" else run_fib(c)
 
 
@@ -464,6 +569,27 @@ def shrinks(c):
                     d = copy.deepcopy(c)
                     d[k] = ["i", nv]
                     yield d
+        return
+    if c["t"] == "fibc":
+        for i in range(len(c["steps"])):
+            if len(c["steps"]) > 1:
+                d = copy.deepcopy(c)
+                del d["steps"][i]
+                yield d
+            if "c" in c["steps"][i]:
+                for j in range(len(c["steps"][i]["c"]["es"])):
+                    d = copy.deepcopy(c)
+                    del d["steps"][i]["c"]["es"][j]
+                    yield d
+        for name in ("a0", "b"):
+            for j in range(len(c[name]["es"])):
+                d = copy.deepcopy(c)
+                del d[name]["es"][j]
+                yield d
+            if c[name]["act"] is not None:
+                d = copy.deepcopy(c)
+                d[name]["act"] = None
+                yield d
         return
     if c["t"] == "fibh":
         fs = [("a", c["a"]), ("b", c["b"])] + ([("c", c["pre"]["c"])] if c["pre"] else [])
@@ -501,4 +627,5 @@ def search(disagreeing, rng, rnd):
         out.append(gen_op_case(rng, combo))
     out += [gen_fib_case(rng) for _ in range(300)]
     out += [gen_hist_case(rng) for _ in range(300)]
+    out += [gen_chain_case(rng) for _ in range(300)]
     return out
